@@ -151,3 +151,46 @@ def parse_wav(b: bytes):
             return res
     res["ok"] = True
     return res
+
+
+def open_image(path: str):
+    """Open an image the way the CLI does (determine_image_type + the two naming routines)."""
+    from smpl_extract.actions import determine_image_type
+    image = determine_image_type(path)
+    image.set_routines({"make_safe_names": image.make_safe_names_routine,
+                        "make_export_names": image.make_export_names_routine})
+    return image
+
+
+def walk_samples(node, prefix=()):
+    """Yield (path tuple of safe names, element) for every sample leaf under node."""
+    from smpl_extract.base import ElementTypes
+    from smpl_extract.structural import Traversable
+    for ch in node.children:
+        p = prefix + (ch.safe_name,)
+        if getattr(ch, "type_id", None) == ElementTypes.SampleEntry:
+            yield p, ch
+        elif isinstance(ch, Traversable):
+            yield from walk_samples(ch, p)
+
+
+def close_image(image):
+    for attr in ("file",):
+        f = getattr(image, attr, None)
+        try:
+            if f is not None:
+                f.close()
+        except Exception:
+            pass
+
+
+def cue_text(bin_name: str, tracks) -> str:
+    """tracks: list of dict(mode='AUDIO', title=None|str, indices=[(num,m,s,f),...])"""
+    lines = ['FILE "%s" BINARY' % bin_name]
+    for i, t in enumerate(tracks):
+        lines.append("  TRACK %02d %s" % (t.get("number", i + 1), t.get("mode", "AUDIO")))
+        if t.get("title") is not None:
+            lines.append('    TITLE "%s"' % t["title"])
+        for (n, m, s, f) in t["indices"]:
+            lines.append("    INDEX %02d %02d:%02d:%02d" % (n, m, s, f))
+    return "\n".join(lines) + "\n"
